@@ -5,7 +5,7 @@ META = {
     'rule': ('The process executing the victim task is killed at every enumerated point of its save: each executed '
              'labtech line of the save path (LINE failpoint with action SIGKILL; first pass counts the lines), each '
              'write() call boundary of metadata and data file and a mid-write split (first half written), with the '
-             'buffer either flushed+fsynced or abandoned; SIGTERM instead of SIGKILL on a sample; x cache format '
+             'buffer either flushed+fsynced or abandoned; SIGTERM instead of SIGKILL on a sample, and the real terminate-on-second-interrupt path (fork worker parks at line k of its save, the caller receives two real SIGINTs, Runner.stop() terminates it); x cache format '
              '{pickle, json} x {first save, overwrite} x shape {small, big} x victim {process running the serial '
              'backend (a forked sacrificial copy of the harness; a fresh interpreter on a sample), fork worker whose '
              'parent survives}. The verdict is taken afterwards by a process that never ran the save: is_cached, '
